@@ -276,6 +276,30 @@ def run(chk: Check, ctx: Any) -> None:
                        f"`while {t}` indexes {lname}[{astq.const_index(s)}] although the loop body removes elements: a routine that consists only of "
                        "labels empties the list and the next test raises IndexError", "emptiness tested first", node=w)
     chk.floor("C10-R3", "list-shrinking while loops in strip_last_label", n_w, 1)
+    # while <list>[<counter>] ...: the body advances the counter, so the test must bound it by the list's length first
+    n_c = 0
+    for f in sorted(reach.values(), key=lambda x: x.qual):
+        for w in walk_no_nested(f.node):
+            if not isinstance(w, ast.While):
+                continue
+            for sub in ast.walk(w.test):
+                if not (isinstance(sub, ast.Subscript) and isinstance(sub.value, ast.Name) and isinstance(sub.slice, ast.Name)):
+                    continue
+                lname, cname = sub.value.id, sub.slice.id
+                advances = any(isinstance(n, ast.AugAssign) and isinstance(n.target, ast.Name) and n.target.id == cname and isinstance(n.op, ast.Add) for n in ast.walk(w))
+                if not advances:
+                    continue
+                n_c += 1
+                bounded = isinstance(w.test, ast.BoolOp) and isinstance(w.test.op, ast.And) and any(
+                    norm(v) in (f"{cname} < len({lname})", f"len({lname}) > {cname}") for v in w.test.values
+                    if v.end_lineno is not None and (v.lineno, v.col_offset) < (sub.lineno, sub.col_offset))
+                in_try = any(isinstance(t, ast.Try) and any(x is w for b in t.body for x in ast.walk(b)) and any(
+                    h.type is None or (dotted(h.type) or "") in ("IndexError", "LookupError", "Exception") for h in t.handlers) for t in walk_no_nested(f.node))
+                chk.decide("C10-R3", fkey(f, w, f"while:{lname}[{cname}]"), bounded or in_try, f,
+                           f"`while {norm(w.test)[:70]}` reads {lname}[{cname}] while the body advances {cname}, without testing {cname} < len({lname}) first: when every "
+                           "element satisfies the condition the index runs off the end and IndexError leaves compile() (e.g. a source that consists only of "
+                           "`//?:` attribute lines)", "counter bounded before the list is indexed", node=w)
+    chk.extra["counter_indexed_while_loops"] = n_c
 
     # ------------------------------------------------------------------ R4
     n_pairs = 0
